@@ -18,6 +18,7 @@ import (
 	"time"
 
 	"github.com/btcsuite/btcd/btcutil/v2"
+	"github.com/btcsuite/btclog/v2"
 	"github.com/lightningnetwork/lnd/channeldb"
 	"github.com/lightningnetwork/lnd/htlcswitch/hop"
 	"github.com/lightningnetwork/lnd/invoices"
@@ -64,6 +65,7 @@ type verifC08Mon struct {
 	byHash       map[lntypes.Hash]*verifC08Pay
 	incomingAdds map[verifC08Key]lntypes.Hash // adds that arrived at Bob
 	downFulfill  map[lntypes.Hash]bool        // downstream fulfill arrived at Bob
+	everAtBob    map[lntypes.Hash]bool        // the payment's add reached Bob
 	upSeen       map[verifC08Key]map[string]int
 	upSeenEpoch  map[verifC08Key]map[int]int
 
@@ -118,6 +120,7 @@ func (m *verifC08Mon) atBob(msg lnwire.Message) {
 	switch x := msg.(type) {
 	case *lnwire.UpdateAddHTLC:
 		m.incomingAdds[verifC08Key{x.ChanID, x.ID}] = lntypes.Hash(x.PaymentHash)
+		m.everAtBob[lntypes.Hash(x.PaymentHash)] = true
 		m.logf("e%d ->B add chan=%x id=%d hash=%x", m.epoch, x.ChanID[:3], x.ID, x.PaymentHash[:4])
 	case *lnwire.UpdateFulfillHTLC:
 		h := lntypes.Hash(sha256.Sum256(x.PaymentPreimage[:]))
@@ -244,10 +247,29 @@ type verifC08Net struct {
 
 func (v *verifC08Net) install(t *testing.T) {
 	n := v.n
+	wireDbg := os.Getenv("VERIF_DEBUG") != ""
 	mk := func(idx int, name string, f func(lnwire.Message)) messageInterceptor {
 		var cnt uint64
 		return func(m lnwire.Message) (bool, error) {
 			c := atomic.AddUint64(&cnt, 1)
+			if wireDbg {
+				var extra string
+				switch x := m.(type) {
+				case *lnwire.UpdateAddHTLC:
+					extra = fmt.Sprintf("chan=%x id=%d hash=%x", x.ChanID[:3], x.ID, x.PaymentHash[:4])
+				case *lnwire.UpdateFulfillHTLC:
+					extra = fmt.Sprintf("chan=%x id=%d", x.ChanID[:3], x.ID)
+				case *lnwire.UpdateFailHTLC:
+					extra = fmt.Sprintf("chan=%x id=%d", x.ChanID[:3], x.ID)
+				case *lnwire.CommitSig:
+					extra = fmt.Sprintf("chan=%x nhtlcsigs=%d", x.ChanID[:3], len(x.HtlcSigs))
+				case *lnwire.RevokeAndAck:
+					extra = fmt.Sprintf("chan=%x", x.ChanID[:3])
+				case *lnwire.ChannelReestablish:
+					extra = fmt.Sprintf("chan=%x nextLocal=%d remoteTail=%d", x.ChanID[:3], x.NextLocalCommitHeight, x.RemoteCommitTailHeight)
+				}
+				fmt.Printf("WIRE %s ->%s %T %s\n", time.Now().Format("15:04:05.000"), name, m, extra)
+			}
 			if v.delayPct > 0 && int(verifMix(v.delaySeed^uint64(idx)<<32^c)%100) < v.delayPct {
 				time.Sleep(time.Duration(1+verifMix(c^v.delaySeed)%15) * time.Millisecond)
 			}
@@ -273,6 +295,7 @@ func verifC08Start(t *testing.T, vc *verifCtx, r *verifRng, capSat btcutil.Amoun
 		byHash:       map[lntypes.Hash]*verifC08Pay{},
 		incomingAdds: map[verifC08Key]lntypes.Hash{},
 		downFulfill:  map[lntypes.Hash]bool{},
+		everAtBob:    map[lntypes.Hash]bool{},
 		upSeen:       map[verifC08Key]map[string]int{},
 		upSeenEpoch:  map[verifC08Key]map[int]int{},
 	}
@@ -482,18 +505,22 @@ func (v *verifC08Net) snapshot() verifC08State {
 	return s
 }
 
+// clean: no HTLC on any channel end and no circuit left at the forwarder
+// (index 1). Circuits of the SENDERS' own payments (hop.Source circuits at
+// Alice/Carol) are outside the statement: a payment whose add never left the
+// sender before the sender itself restarted keeps its local circuit, which
+// only the (absent) router would clean up; they are reported as a diagnostic.
 func (s verifC08State) clean() bool {
 	for i := 0; i < 4; i++ {
 		if s.Htlcs[i] != 0 {
 			return false
 		}
 	}
-	for i := 0; i < 3; i++ {
-		if s.Pending[i] != 0 || s.Opened[i] != 0 {
-			return false
-		}
-	}
-	return true
+	return s.Pending[1] == 0 && s.Opened[1] == 0
+}
+
+func (s verifC08State) senderCircuits() int {
+	return s.Pending[0] + s.Opened[0] + s.Pending[2] + s.Opened[2]
 }
 
 // waitIdle polls until the observable state has not changed for `stable`
@@ -592,15 +619,20 @@ func verifC08Case(t *testing.T, vc *verifCtx, i int) {
 	}
 	done := make(chan struct{})
 	go func() { wg.Wait(); close(done) }()
-	select {
-	case <-done:
-	case <-time.After(120 * time.Second):
-		// results missing: decided below (idle+dirty => violation,
-		// otherwise inconclusive).
-	}
-	st, idle := v.waitIdle(40, 90*time.Second)
+	// first let the network settle (observable state stable), then give
+	// the result waiters a short grace period; payments whose sender
+	// restarted before the add was committed never get a result.
+	st, idle := v.waitIdle(40, 120*time.Second)
 	if !idle {
 		t.Fatalf("case %d: network never became idle within the watchdog (inconclusive): %+v", i, st)
+	}
+	select {
+	case <-done:
+	case <-time.After(3 * time.Second):
+	}
+	st, idle = v.waitIdle(10, 60*time.Second)
+	if !idle {
+		t.Fatalf("case %d: network not idle after results (inconclusive): %+v", i, st)
 	}
 	vc.Count("oracle_quiescence", 1)
 	wit := func() any {
@@ -612,6 +644,12 @@ func verifC08Case(t *testing.T, vc *verifCtx, i int) {
 		v.mon.mu.Lock()
 		defer v.mon.mu.Unlock()
 		return map[string]any{"payments": ps, "state": st, "start": start, "trace": v.mon.trace}
+	}
+	if !st.clean() && os.Getenv("VERIF_DEBUG") != "" {
+		v.debugDump()
+	}
+	if n := st.senderCircuits(); n > 0 {
+		vc.Diag("sender_local_circuits_left", fmt.Sprintf("case %d: %d circuits of the senders' own payments", i, n))
 	}
 	if !st.clean() {
 		vc.Violation("nothing_dangling", fmt.Sprintf("htlcs=%v pending=%v open=%v", st.Htlcs, st.Pending, st.Opened),
@@ -649,8 +687,30 @@ func verifC08Case(t *testing.T, vc *verifCtx, i int) {
 			vc.Violation("result_matches_invoice", "wrong-preimage",
 				fmt.Sprintf("payment %d succeeded with a wrong preimage", p.Idx), wit())
 		default:
-			vc.Violation("terminal_result", "missing",
-				fmt.Sprintf("payment %d (%s %s) has no terminal result at quiescence (%s)", p.Idx, p.Dir, p.Kind, p.errStr), wit())
+			v.mon.mu.Lock()
+			reached := v.mon.everAtBob[p.Hash]
+			v.mon.mu.Unlock()
+			if !reached {
+				// the add never left the sender (sender restarted
+				// first): nothing the forwarder could resolve.
+				vc.Count("sender_abandoned_payments", 1)
+				if settled {
+					vc.Violation("result_matches_invoice", "abandoned-but-settled",
+						fmt.Sprintf("payment %d never reached the forwarder but its invoice is settled", p.Idx), wit())
+				}
+			} else {
+				// The add was seen on the wire but the sender
+				// restarted before it was irrevocably committed
+				// (or before its result was stored). The statement
+				// says nothing about the sender's bookkeeping:
+				// diagnostic; the money side is judged by the
+				// conservation oracle below.
+				vc.Diag("sender_result_missing", fmt.Sprintf("payment %d (%s %s): %s", p.Idx, p.Dir, p.Kind, p.errStr))
+				if settled {
+					vc.Violation("result_matches_invoice", "no-result-but-settled",
+						fmt.Sprintf("payment %d has no result at the sender but its invoice is settled", p.Idx), wit())
+				}
+			}
 		}
 		if p.Kind != "valid" && settled {
 			vc.Violation("invalid_payment_settled", p.Kind,
@@ -719,6 +779,11 @@ func verifMin(a, b int) int {
 func TestVerifC08(t *testing.T) {
 	vc := verifStart(t, "C08", "threehop")
 	defer vc.Finish()
+	if os.Getenv("VERIF_DEBUG") == "2" {
+		lg := btclog.NewSLogger(btclog.NewDefaultHandler(os.Stdout))
+		lg.SetLevel(btclog.LevelDebug)
+		UseLogger(lg)
+	}
 	total := vc.N(40, 700)
 	for i := 0; i < total; i++ {
 		if !vc.Mine(i) {
@@ -731,5 +796,44 @@ func TestVerifC08(t *testing.T) {
 		if t.Failed() {
 			return
 		}
+	}
+}
+
+
+func (v *verifC08Net) debugDump() {
+	names := []string{"alice(A-B)", "bob(A-B)", "bob(B-C)", "carol(B-C)"}
+	chans := []*lnwallet.LightningChannel{v.channels.aliceToBob, v.channels.bobToAlice,
+		v.channels.bobToCarol, v.channels.carolToBob}
+	for i, c := range chans {
+		st := c.State()
+		fmt.Printf("DBG %s localH=%d remoteH=%d\n", names[i], st.LocalCommitment.CommitHeight, st.RemoteCommitment.CommitHeight)
+		for _, h := range st.LocalCommitment.Htlcs {
+			fmt.Printf("DBG   local htlc in=%v id=%d hash=%x amt=%d\n", h.Incoming, h.HtlcIndex, h.RHash[:4], h.Amt)
+		}
+		for _, h := range st.RemoteCommitment.Htlcs {
+			fmt.Printf("DBG   remote htlc in=%v id=%d hash=%x amt=%d\n", h.Incoming, h.HtlcIndex, h.RHash[:4], h.Amt)
+		}
+		tip, err := st.RemoteCommitChainTip()
+		fmt.Printf("DBG   pending remote tip: %v err=%v owe=%v need=%v\n", tip != nil, err, c.OweCommitment(), c.NeedCommitment())
+		pkgs, _ := st.LoadFwdPkgs()
+		for _, p := range pkgs {
+			fmt.Printf("DBG   fwdpkg h=%d state=%v adds=%d sf=%d ackfilter=%v fwdfilter=%v sffilter=%v\n", p.Height, p.State,
+				len(p.Adds), len(p.SettleFails), p.AckFilter, p.FwdFilter, p.SettleFailFilter)
+		}
+	}
+	for i, srv := range []*mockServer{v.n.aliceServer, v.n.bobServer, v.n.carolServer} {
+		cm := srv.htlcSwitch.circuits.(*circuitMap)
+		cm.mtx.RLock()
+		for k, c := range cm.pending {
+			fmt.Printf("DBG switch%d pending in=%v out=%v hash=%x loaded=%v\n", i, k, c.Outgoing, c.PaymentHash[:4], c.LoadedFromDisk)
+		}
+		for k := range cm.opened {
+			fmt.Printf("DBG switch%d opened out=%v\n", i, k)
+		}
+		cm.mtx.RUnlock()
+	}
+	links := []*channelLink{v.n.aliceChannelLink, v.n.firstBobChannelLink, v.n.secondBobChannelLink, v.n.carolChannelLink}
+	for i, l := range links {
+		fmt.Printf("DBG link%d eligible=%v failed=%v\n", i, l.EligibleToForward(), l.failed)
 	}
 }
